@@ -8,7 +8,7 @@ import (
 	"verifharness/hlib"
 )
 
-var classes = []string{"basic", "located", "nested", "prefix", "long", "root", "rootdeleg", "empty", "odd", "c02", "mixedrd", "nested"}
+var classes = []string{"basic", "located", "nested", "prefix", "long", "root", "rootdeleg", "empty", "odd", "c02", "mixedrd", "hibyte"}
 
 func main() {
 	hlib.Main(func(a *hlib.Args, e *hlib.Emitter) error { return corelib.RunFiles(a, e, classes, 100) })
